@@ -221,7 +221,12 @@ package dispatcher
 
 // (interface contracts of queue.LeaseBatchStore: /verif/specs/queue_store.spec)
 //@ func (*PushDispatcher).applyLeaseAction
-//@   trusted
+//@   requires d != nil
+//@   modifies storeMutations, lastStoreErr, lastStoreLease, lastStoreOp, lastStoreAmount
+//@   calls queue.Store.Ack requires [C06:an_ack_action_acks_its_lease] action.kind == leaseActionAck && callee_leaseID == action.leaseID
+//@   calls queue.Store.Nack requires [C06:a_retry_action_nacks_its_lease_with_its_delay] action.kind == leaseActionNack && callee_leaseID == action.leaseID && callee_delay == action.delay
+//@   calls queue.Store.MarkDead requires [C06:a_dead_letter_action_dead_letters_its_lease_with_its_reason] action.kind == leaseActionMarkDead && callee_leaseID == action.leaseID && callee_reason == action.reason
+//@   ensures [C06:every_decided_action_reaches_the_store_exactly_once] (action.kind == leaseActionAck || action.kind == leaseActionNack || action.kind == leaseActionMarkDead) ==> storeMutations == old(storeMutations) + 1 && lastStoreLease == action.leaseID && lastStoreOp == ite(action.kind == leaseActionAck, "ack", ite(action.kind == leaseActionNack, "nack", "dead"))
 //@ func (*PushDispatcher).logBatchConflicts
 //@   trusted
 
